@@ -1,0 +1,48 @@
+//go:build verif
+
+package index
+
+import (
+	"sync/atomic"
+
+	v1 "github.com/lindb/lindb/index/v1"
+	"github.com/lindb/lindb/kv"
+)
+
+// Verification fault seam for property C09: a failing flush of an indexKVStore. Uses the package's
+// own test seam (newIndexKVFlusher); without an armed fault the constructor is the original one.
+
+var verifKVFlushFaults atomic.Int32
+
+// verifFaultyFlusher fails Close() — i.e. the kv family commit — without committing anything.
+type verifFaultyFlusher struct {
+	v1.IndexKVFlusher
+}
+
+type verifFlushFault struct{}
+
+func (verifFlushFault) Error() string { return "verif: injected kv flush failure" }
+
+func (f *verifFaultyFlusher) Close() error { return verifFlushFault{} }
+
+// VerifFailNextKVFlush arms the fault: the next n indexKVStore flushes that actually write (needFlush)
+// fail at the kv family commit. Returns how many armed faults were still unused before the call.
+func VerifFailNextKVFlush(n int) int {
+	old := verifKVFlushFaults.Swap(int32(n))
+	newIndexKVFlusher = func(blockSize int, kvFlusher kv.Flusher) (v1.IndexKVFlusher, error) {
+		inner, err := v1.NewIndexKVFlusher(blockSize, kvFlusher)
+		if err != nil {
+			return nil, err
+		}
+		for {
+			left := verifKVFlushFaults.Load()
+			if left <= 0 {
+				return inner, nil
+			}
+			if verifKVFlushFaults.CompareAndSwap(left, left-1) {
+				return &verifFaultyFlusher{IndexKVFlusher: inner}, nil
+			}
+		}
+	}
+	return int(old)
+}
